@@ -228,11 +228,33 @@ where
           break 'handshake;
         }
 
-        let read_result = tokio::time::timeout(
-          hs_timeout,
-          hs_read_half.read_buf(&mut self.handshake_read_buf),
-        )
-        .await;
+        // A context/socket shutdown must not have to wait for a peer that is stuck (or silent) in
+        // the handshake: watch the system events while waiting for handshake bytes. `read_buf` is
+        // cancel-safe, so losing the race reads nothing.
+        let read_result = tokio::select! {
+          biased;
+          maybe_event = self.system_event_receiver.recv() => {
+            match maybe_event {
+              Ok(SystemEvent::ContextTerminating) => {
+                self.transition_to_shutdown_stream(None).await;
+                break 'handshake;
+              }
+              Ok(SystemEvent::SocketClosing { socket_id }) if socket_id == self.parent_socket_id => {
+                self.transition_to_shutdown_stream(None).await;
+                break 'handshake;
+              }
+              Ok(_) | Err(broadcast::error::RecvError::Lagged(_)) => continue 'handshake,
+              Err(broadcast::error::RecvError::Closed) => {
+                self.transition_to_shutdown_stream(None).await;
+                break 'handshake;
+              }
+            }
+          }
+          r = tokio::time::timeout(
+            hs_timeout,
+            hs_read_half.read_buf(&mut self.handshake_read_buf),
+          ) => r,
+        };
 
         match read_result {
           Err(_elapsed) => {
